@@ -45,6 +45,7 @@ struct Sk<'a> {
     kept: HashMap<String, String>,    // variable name -> type
     alias: HashMap<String, String>,   // expression text (no spaces) -> kept name
     tracked: HashMap<String, String>, // name -> type
+    tracked_ref: Vec<String>,         // tracked names that are references (`&mut T` parameters, `&mut self`)
     events: HashMap<String, Event>,
     readonly: Vec<String>,
     flags: Vec<String>,
@@ -53,6 +54,7 @@ struct Sk<'a> {
     on_mutcall: Vec<(String, String)>,
     on_else: Vec<(Vec<pattern::Pat>, String, String)>,
     on_mutarg: Vec<(String, String)>,
+    on_stmt: Vec<(Vec<pattern::Pat>, String, String)>,
     loop_specs: HashMap<usize, Vec<String>>,
     loop_no: usize,
     loops: Vec<LoopCtx>,
@@ -780,6 +782,26 @@ impl<'a> Sk<'a> {
     }
 
     fn stmt(&mut self, s: &syn::Stmt, out: &mut Vec<String>) -> R<()> {
+        self.stmt_inner(s, out)?;
+        // `on stmt` hooks: only for simple statements (not for compound ones that merely contain the pattern)
+        let simple = match s {
+            syn::Stmt::Local(_) => true,
+            syn::Stmt::Expr(e, _) => !matches!(e, syn::Expr::If(_) | syn::Expr::Match(_) | syn::Expr::ForLoop(_) | syn::Expr::While(_) | syn::Expr::Loop(_) | syn::Expr::Block(_)),
+            _ => false,
+        };
+        if simple {
+            let toks = s.to_token_stream();
+            for (pat, stmt, raw) in self.on_stmt.clone() {
+                if pattern::contains(&pat, toks.clone()) {
+                    out.push(format!("{stmt} // hook: stmt `{raw}`"));
+                    self.used_hooks.push(format!("stmt {raw}"));
+                }
+            }
+        }
+        Ok(())
+    }
+
+    fn stmt_inner(&mut self, s: &syn::Stmt, out: &mut Vec<String>) -> R<()> {
         match s {
             syn::Stmt::Local(l) => {
                 let Some(init) = &l.init else {
@@ -827,14 +849,18 @@ impl<'a> Sk<'a> {
                                     out.push(format!("let _ = {v}; {}", self.srcnote(l.span())));
                                 }
                             }
-                            for n in names {
-                                if let Some(ty) = self.kept.get(&n).cloned() {
+                            for n in &names {
+                                if let Some(ty) = self.kept.get(n).cloned() {
                                     out.push(format!("let {n}: {ty} = {}; {}", self.nd_of(&ty), self.srcnote(l.span())));
-                                } else if let Some(ty) = self.tracked.get(&n).cloned() {
+                                } else if let Some(ty) = self.tracked.get(n).cloned() {
                                     out.push(format!("let {n}: {ty} = arb::<{ty}>(); {}", self.srcnote(l.span())));
                                 }
                             }
                             self.dropped += 1;
+                        }
+                        for n in &names {
+                            let id = proc_macro2::Ident::new(n, proc_macro2::Span::call_site());
+                            self.assign_hooks(&syn::Expr::Path(syn::ExprPath { attrs: vec![], qself: None, path: id.into() }), out);
                         }
                     }
                 }
@@ -880,11 +906,17 @@ impl<'a> Sk<'a> {
                 } else if let Some(n) = self.is_tracked_root(&a.left).filter(|_| matches!(&*a.left, Expr::Path(_))) {
                     let ty = self.tracked[&n].clone();
                     out.push(format!("{n} = {}; {}", rhs.unwrap_or_else(|| format!("arb::<{ty}>()")), self.srcnote(e.span())));
+                } else if Self::root_ident(&a.left).filter(|r| self.tracked.contains_key(r)).is_some()
+                    && self.on_stmt.iter().any(|(pat, _, _)| pattern::contains(pat, e.to_token_stream()))
+                {
+                    // the effect of this field assignment on the tracked object is given by an `on stmt` hook
+                    self.note("S6", e.span(), "assignment into a tracked object: effect defined by the unit's hook");
                 } else if let Some(root) = Self::root_ident(&a.left).filter(|r| self.tracked.contains_key(r)) {
                     // a part of a tracked object is overwritten: the object becomes arbitrary
                     let ty = self.tracked[&root].clone();
                     self.note("S6", e.span(), "assignment into a tracked object: havoc");
-                    out.push(format!("{root} = arb::<{ty}>(); {}", self.srcnote(e.span())));
+                    let star = if self.tracked_ref.contains(&root) { "*" } else { "" };
+                    out.push(format!("{star}{root} = arb::<{ty}>(); {}", self.srcnote(e.span())));
                 } else {
                     if let Some(v) = rhs.filter(|v| v.contains('(') && !v.starts_with('(') && !v.starts_with('!')) {
                         // the assigned value is erased, its effects (error return, events) are not
@@ -920,7 +952,8 @@ impl<'a> Sk<'a> {
                     }
                 } else if let Some(root) = Self::root_ident(&b.left).filter(|r| self.tracked.contains_key(r)) {
                     let ty = self.tracked[&root].clone();
-                    out.push(format!("{root} = arb::<{ty}>(); {}", self.srcnote(e.span())));
+                    let star = if self.tracked_ref.contains(&root) { "*" } else { "" };
+                    out.push(format!("{star}{root} = arb::<{ty}>(); {}", self.srcnote(e.span())));
                 } else {
                     self.dropped += 1;
                 }
@@ -1281,6 +1314,7 @@ pub fn skeleton_fn(ctx: &mut Ctx, blk: &Block) -> Result<(String, Value), String
         kept: HashMap::new(),
         alias: HashMap::new(),
         tracked: HashMap::new(),
+        tracked_ref: vec![],
         events: HashMap::new(),
         readonly: vec![],
         flags: vec![],
@@ -1289,6 +1323,7 @@ pub fn skeleton_fn(ctx: &mut Ctx, blk: &Block) -> Result<(String, Value), String
         on_mutcall: vec![],
         on_else: vec![],
         on_mutarg: vec![],
+        on_stmt: vec![],
         loop_specs: HashMap::new(),
         loop_no: 0,
         loops: vec![],
@@ -1334,7 +1369,8 @@ pub fn skeleton_fn(ctx: &mut Ctx, blk: &Block) -> Result<(String, Value), String
             }
             "readonly" => sk.readonly.extend(s.arg.split(',').map(|x| x.trim().to_string())),
             "flag" => sk.flags.push(s.arg.trim().to_string()),
-            "on" => {
+            "on" | "on?" => {
+                let optional = s.kind == "on?";
                 let (head, stmt) = crate::extract::split_arrow(&s.arg)?;
                 let (kind, what) = head.split_once(char::is_whitespace).ok_or("on: <kind> <what> => <stmt>")?;
                 match kind {
@@ -1343,9 +1379,12 @@ pub fn skeleton_fn(ctx: &mut Ctx, blk: &Block) -> Result<(String, Value), String
                     "then" => sk.on_then.push((pattern::parse_pattern(what.trim())?, stmt, what.trim().to_string())),
                     "else" => sk.on_else.push((pattern::parse_pattern(what.trim())?, stmt, what.trim().to_string())),
                     "mutarg" => sk.on_mutarg.push((what.trim().to_string(), stmt)),
+                    "stmt" => sk.on_stmt.push((pattern::parse_pattern(what.trim())?, stmt, what.trim().to_string())),
                     k => return Err(format!("on: unknown kind {k}")),
                 }
-                declared_hooks.push(format!("{kind} {}", what.trim()));
+                if !optional {
+                    declared_hooks.push(format!("{kind} {}", what.trim()));
+                }
             }
             "loop" => {
                 let k: usize = s.arg.trim().parse().map_err(|_| "loop index")?;
@@ -1384,12 +1423,18 @@ pub fn skeleton_fn(ctx: &mut Ctx, blk: &Block) -> Result<(String, Value), String
         if ["usize", "bool", "i32", "u64"].contains(&base.as_str()) {
             sk.kept.insert(pname, base);
         } else if !sk.kept.contains_key(&pname) {
+            if ty.starts_with('&') {
+                sk.tracked_ref.push(pname.clone());
+            }
             sk.tracked.insert(pname, base);
         }
     }
     if params_text.contains("self") {
         let self_ty = blk.opt("self").unwrap_or("Self").to_string();
         sk.tracked.insert("self".into(), self_ty);
+        if params_text.contains("&mut self") || params_text.contains("&self") {
+            sk.tracked_ref.push("self".into());
+        }
     }
 
     let mut body: Vec<String> = Vec::new();
